@@ -305,6 +305,61 @@ fn oracle_walk(case: &[u8], obs: &mut Obs) -> Result<(), String> {
     Ok(())
 }
 
+/// Stream queries must return too (with anything) when the stream ends before the length it reported, delivers
+/// nothing from some call on, or cannot say how long it is: generated/sample files of at most 16 KB, the C07 query
+/// vocabulary. Only termination is judged here (the watchdog); what is returned is C07/C08/C17's business.
+fn oracle_stream(case: &[u8], obs: &mut Obs) -> Result<(), String> {
+    use verif_model::io::{Fault, FaultKind, Reader};
+    let mut c = Choice::new(case);
+    let mut o = InputOpts::default();
+    o.rich.corrupt_chance = 60;
+    o.rich.override_chance = 60;
+    o.max_sample = 16_000;
+    let inp = inputs::gen_input(&mut c, &o);
+    let data = inp.data.clone();
+    let (nsec, nseg) = match elf::ElfBytes::<AnyEndian>::minimal_parse(&data) {
+        Ok(f) => (f.section_headers().map(|t| t.len()).unwrap_or(0).min(4096), f.segments().map(|t| t.len()).unwrap_or(0).min(4096)),
+        Err(_) => (0, 0),
+    };
+    let (chunks, intr) = crate::stream::gen_reader_behaviour(&mut c, 16);
+    let mode = c.below(4);
+    let mut reader = match mode {
+        // the stream claims more bytes than it can deliver
+        0 => Reader::with(data.clone(), chunks, intr, vec![]).over_reporting(1 + c.below(100_000)),
+        // the file was cut after it was measured: the reported length is the old one
+        1 => {
+            let cut = c.below(data.len() as u64 + 1) as usize;
+            Reader::with(data[..cut].to_vec(), chunks, intr, vec![]).over_reporting((data.len() - cut) as u64)
+        }
+        // from some call on every read delivers nothing
+        2 => Reader::with(data.clone(), chunks, intr, vec![Fault { at: c.below(60), kind: FaultKind::Eof, permanent: true, ekind: 0 }]),
+        // from some call on every call fails
+        _ => Reader::with(data.clone(), chunks, intr, vec![Fault { at: c.below(60), kind: FaultKind::Error, permanent: true, ekind: c.below(8) as u8 }]),
+    };
+    if c.u8() >= 230 {
+        reader = reader.without_seek_end(c.below(8) as u8);
+    }
+    let names = vec![b"memset".to_vec()];
+    let (ops, _) = crate::stream::gen_ops(&mut c, nsec, nseg, data.len(), &names, 12);
+    let mut returned = 0u64;
+    if let Ok(mut s) = guard(|| open_stream_as(AnyEndian::Little, reader.clone())).map_err(|p| format!("open_stream panicked: {}", p))? {
+        obs.label("stream_opened");
+        for q in &ops {
+            let _ = crate::queries::eval_stream(&mut s, q);
+            returned += 1;
+        }
+    }
+    obs.count("stream_calls_returned", returned + 1);
+    obs.label(["over_reporting_stream", "file_cut_after_measuring", "permanent_eof", "permanent_error"][mode as usize]);
+    if returned > 0 {
+        obs.nontrivial();
+    }
+    obs.key = fnv64(&data) ^ (mode << 60) ^ fnv64(format!("{:?}", ops).as_bytes()).rotate_left(17);
+    let rname = ["over-reporting", "cut after measuring", "permanent EOF", "permanent error"][mode as usize];
+    obs.describe(|| json!({"input": inp.note, "input_len": data.len(), "reader": rname, "ops": ops.len()}));
+    Ok(())
+}
+
 /// raw mode: [n][n walker-argument bytes][the ELF file], unlimited iterator budget
 pub fn oracle_walk_raw(case: &[u8], obs: &mut Obs) -> Result<(), String> {
     let (args, data) = c01::split_raw(case);
@@ -329,9 +384,9 @@ pub fn property() -> Property {
     Property {
         id: "C16",
         level: "exploration",
-        rule: "links: adversarial link structures built on purpose - SysV hash chains with cycles of every length 1..n and self-loops reached from the queried bucket with a name that never matches; GNU chains without stop bit whose hashes all equal the query's; Verdef/Verneed/aux records with next/aux links from {0,1,own size,aux size,distance to end,2^31,2^32-1,random} and (also backward steps in 32-bit wrapping arithmetic) and declared counts from {1,2,3,2^16-1,2^32-1,2^40,2^64-1}, queried through the iterators and through SymbolVersionTable; note and entry sections with trailing partial records, also driven through nth(0)/skip/step_by on an advanced iterator; Debug formatting of the cyclic tables. walk: the C01 input domain (rich files with overrides/corruption, mutated samples, raw bytes) with every iterator driven to bound+1 items. Oracle: every iterator yields at most one item per input byte, a version-record iterator at most min(declared count, bytes) records, an absent name is never found, and every single case returns before the watchdog limit (15 s for links, 60 s for walk; typical cost is microseconds). Non-trivial (links): the structure is adversarial (cycle / no stop bit / zero, self or overlapping link / count larger than the data) and the lookup or iteration was executed; (walk): corrupted input that opened and reached a hash lookup or version query.",
+        rule: "links: adversarial link structures built on purpose - SysV hash chains with cycles of every length 1..n and self-loops reached from the queried bucket with a name that never matches; GNU chains without stop bit whose hashes all equal the query's; Verdef/Verneed/aux records with next/aux links from {0,1,own size,aux size,distance to end,2^31,2^32-1,random} and (also backward steps in 32-bit wrapping arithmetic) and declared counts from {1,2,3,2^16-1,2^32-1,2^40,2^64-1}, queried through the iterators and through SymbolVersionTable; note and entry sections with trailing partial records, also driven through nth(0)/skip/step_by on an advanced iterator; Debug formatting of the cyclic tables. walk: the C01 input domain (rich files with overrides/corruption, mutated samples, raw bytes) with every iterator driven to bound+1 items. Oracle: every iterator yields at most one item per input byte, a version-record iterator at most min(declared count, bytes) records, an absent name is never found, and every single case returns before the watchdog limit (15 s for links, 60 s for walk; typical cost is microseconds). Non-trivial (links): the structure is adversarial (cycle / no stop bit / zero, self or overlapping link / count larger than the data) and the lookup or iteration was executed; (walk): corrupted input that opened and reached a hash lookup or version query. stream: files of at most 16 KB behind a stream that reports more bytes than it delivers, was cut after it was measured, delivers nothing or fails from some call on (optionally without SeekFrom::End), 0..12 stream queries; only termination is judged (20 s watchdog); non-trivial when the stream opened and a query returned.",
         assumptions: &["wall-clock watchdog: limits are far above the worst legitimate nested walk on the generated sizes (version sections <= 420 bytes, files <= 16 KiB)", "a hang is detected by the watchdog; termination is not proved"],
-        subs: vec![Sub::new("links", oracle_links, 400, 3_000_000, 40_000_000).hang_violation().hang_secs(15), Sub::new("walk", oracle_walk, 3000, 250_000, 8_000_000).hang_violation().shrink(2000), Sub::new("walk_raw", oracle_walk_raw, 600, 20_000, 200_000).hang_violation().shrink(2000)],
+        subs: vec![Sub::new("links", oracle_links, 400, 3_000_000, 40_000_000).hang_violation().hang_secs(15), Sub::new("walk", oracle_walk, 3000, 250_000, 8_000_000).hang_violation().shrink(2000), Sub::new("walk_raw", oracle_walk_raw, 600, 20_000, 200_000).hang_violation().shrink(2000), Sub::new("stream", oracle_stream, 1500, 40_000, 1_500_000).hang_violation().hang_secs(20).shrink(300)],
         extras: vec![crate::fuzz::c16_campaign],
     }
 }
